@@ -1,4 +1,4 @@
 SPECIFICATION Spec
 CONSTANT Fracs = 8
-INVARIANTS AuthServer AuthClient Agreement HonestCompletes
+INVARIANTS AuthServer AuthClient Agreement HonestCompletes ClockHonoured
 CONSTRAINT Emit
